@@ -41,8 +41,10 @@ for pid in ids:
         t = truth.get(pid, 0) > 0
         note = {(1, True): 'confirmed by input', (1, False): 'NO failing input in corpus (subtle or FALSE ALARM?)', (0, True): 'MISSED (native has failing input)', (0, False): ''}.get((p.returncode, t), '')
     print(pid, 'rc=%d' % p.returncode, note)
+    lines.sort(key=lambda l: 0 if l.startswith(('VIOLATION', 'BOUNDED', 'OK')) else 1)
     for l in lines[:6]:
         print('   ', l[:230])
 shutil.rmtree(scratch, ignore_errors=True)
 import hashlib
-shutil.rmtree(os.path.join(os.path.dirname(HERE), '.cache', 'native', 'crate-' + hashlib.sha1(scratch.encode()).hexdigest()[:10]), ignore_errors=True)
+for pre in ('crate-', 'target-'):
+    shutil.rmtree(os.path.join(os.path.dirname(HERE), '.cache', 'native', pre + hashlib.sha1(scratch.encode()).hexdigest()[:10]), ignore_errors=True)
